@@ -452,7 +452,10 @@ def judge_syntax(s, kind, msg, cfg, out, sql, col):
 # generators
 
 SEPS = [' ', ' ', ' ', '  ', '\n', '\n', '\n  ', '\n\t', ' \n', '\n\n', '\n \n    ', ' -- c\n', " -- it's (\n  ",
-        ' /* c */ ', '/**/', ' /* a\n b */ ', '\t', '\r\n', '\n-- only a comment\n']
+        ' /* c */ ', '/**/', ' /* a\n b */ ', '\t', '\r\n', '\n-- only a comment\n',
+        # characters that str.splitlines() -- but not the library's notion of a line -- treats as line ends
+        ' /* a\x0cb */ ', ' /* a\x0bb */ ', ' /* a\u2028b */ ', ' /* a\x85b */ ', ' -- a\x1cb\x1dc\n', ' \r ', '\r',
+        '\n/* a\x0cb */ ', ' /* a\rb */ ']
 LEADS = ['', '', ' ', '\n', '   ', '\t', '\n\n  ', '-- lead\n', '/* lead */', '  /* a\n b */  ', '-- a\n-- b\n  ']
 
 
@@ -566,7 +569,19 @@ def run_shard(col, k, nshards, tier, seed):
         c = {'sql': sql, 'origin': 'same-tail-family'}
         for rec in judge(c, col):
             col.fail(rec, c)
+    # truncations of the production-pair sentences of the live grammar: an error position in (nearly) every grammar
+    # context, many of them with the same set of expected tokens but different acceptable continuations
+    pstep = 4 if tier == 'quick' else 1
+    pairs = grammar.get('mindsdb').pair_sentences()
+    mine = [toks for i, (_, toks) in enumerate(pairs) if i % pstep == 0][k::nshards]
+    for toks in mine:
+        for cut in range(1, len(toks)):
+            c = {'sql': ' '.join(toks[:cut]), 'origin': 'truncate-all:pairs'}
+            for rec in judge(c, col):
+                col.fail(rec, c)
     if k == 0:
+        col.exhaustive_parts.append('every truncation at a token boundary of %s production-pair sentence of the '
+                                    'mindsdb grammar' % ('every 4th' if tier == 'quick' else 'every'))
         col.exhaustive_parts.append('every truncation at a token boundary of %s corpus statement (original layout); '
                                     'all rejected corpus statements'
                                     % ('every 6th' if tier == 'quick' else 'every'))
